@@ -71,7 +71,9 @@ func NewAdditionalProperties(ruleValue bytes.Bytes) *AdditionalProperties {
 		c.mode = AdditionalPropertiesMustBeUserType
 		c.typeName = txt
 
-	case schema.IsValidType(txtStr):
+	// "comment" is a kind of lexeme, not a type a value can have (the "type" and
+	// "or" rules refuse it as well).
+	case schema.IsValidType(txtStr) && schema.SchemaType(txtStr) != schema.SchemaTypeComment:
 		c.astNode.TokenType = schema.TokenTypeString
 		c.astNode.Value = txtStr
 		c.mode = AdditionalPropertiesMustBeSchemaType
